@@ -658,7 +658,7 @@ pub fn run(args: &Args, thorough: bool, total: &mut Report, bounds: &mut Map<Str
 // ---------------------------------------------------------------- finder reuse (C16)
 
 fn finder_needles(thorough: bool) -> Vec<Vec<u8>> {
-    let mut v = spaces::AllStrings { letters: b"ab".to_vec(), minlen: 0, maxlen: if thorough { 5 } else { 4 } }.all();
+    let mut v = spaces::AllStrings { letters: b"ab".to_vec(), minlen: 0, maxlen: if thorough { 6 } else { 4 } }.all();
     v.extend(pf_needles());
     v.extend(spaces::ln_needles(&[33, 65], 2).into_iter().step_by(if thorough { 1 } else { 3 }));
     // every needle length around the sizes a small-buffer / inline
@@ -876,7 +876,7 @@ fn explore_finder(needle: &[u8], depth: usize, r: &mut Report) {
 }
 
 pub fn run_finder(args: &Args, thorough: bool, total: &mut Report, bounds: &mut Map<String, Value>, exhaustive: &mut bool) {
-    let depth = args.num("depth", 3) as usize;
+    let depth = args.num("depth", if thorough { 4 } else { 3 }) as usize;
     let needles = finder_needles(thorough);
     let rep = mcore::par::run_items(&needles, |_, needle, r| {
         match guarded(|| {
